@@ -351,7 +351,12 @@ def _read_fasta(ctx, f):
     call = [n for n in ast.walk(f.node) if isinstance(n, ast.Call)
             and callee_is(prog, f, n, "Proteins")]
     ctx.require(len(call) == 1, f"{f.qual}: Proteins(...) not found")
-    kw = {k.arg: T.of(k.value) for k in call[0].keywords}
+    pinit = prog.funcs.get("mokapot.proteins.Proteins.__init__")
+    if pinit is not None:
+        kw = {k: T.of(v) for k, v in prog.bind(pinit, call[0]).items()
+              if k != "self"}
+    else:
+        kw = {k.arg: T.of(k.value) for k in call[0].keywords}
     U, S, D = (root_name(kw.get(k, ("x",))) for k in (
         "peptide_map", "shared_peptides", "protein_map"))
     gp = [t for n in ast.walk(f.node) if isinstance(n, ast.Call)
@@ -432,11 +437,24 @@ def _read_fasta(ctx, f):
                   (("call", "builtins.iter", (VAL,), ()),), ())
         want_s = ("mcall", ("const", "; "), "join",
                   (("call", "builtins.sorted", (VAL,), ()),), ())
-        ok = (ue[0].key == KEY and se[0].key == KEY
-              and ue[0].value in (want_u, ("item", VAL, 0))
-              and se[0].value == want_s)
-        cu, cs = _loop_conds(cfg, T, ue[0].stmt), _loop_conds(
-            cfg, T, se[0].stmt)
+        from ..tutil import map_term
+
+        def kv(t):
+            """for p in D: ... D[p] ...  reads the same key / value as
+            for p, v in D.items()"""
+            def g(x):
+                if x == ("sub", GP, ("elem", GP)):
+                    return VAL
+                return x
+            t = map_term(t, g)
+            return map_term(t, lambda x: KEY if x == ("elem", GP) else x)
+        u_key, u_val = kv(ue[0].key), kv(ue[0].value)
+        s_key, s_val = kv(se[0].key), kv(se[0].value)
+        ok = (u_key == KEY and s_key == KEY
+              and u_val in (want_u, ("item", VAL, 0))
+              and s_val == want_s)
+        cu = [(kv(t_), o_) for t_, o_ in _loop_conds(cfg, T, ue[0].stmt)]
+        cs = [(kv(t_), o_) for t_, o_ in _loop_conds(cfg, T, se[0].stmt)]
         LEN = ("call", "builtins.len", (VAL,), ())
         try:
             for n in (1, 2, 3):
